@@ -637,6 +637,16 @@ func (n *Node) fastForward() error {
 		return fmt.Errorf("getBestFastForwardResponse returned nil")
 	}
 
+	//verify the response before touching the application: a response that is
+	//going to be refused must not have replaced the application's state
+	n.coreLock.Lock()
+	err = n.core.checkFastForward(&resp.Block, &resp.Frame)
+	n.coreLock.Unlock()
+	if err != nil {
+		n.logger.WithError(err).Error("Checking FastForwardResponse")
+		return err
+	}
+
 	//update app from snapshot
 	err = n.proxy.Restore(resp.Snapshot)
 	if err != nil {
